@@ -7,6 +7,7 @@ import (
 
 // EqdC is an Equidistant Conic projection.
 func EqdC(this *SR) (forward, inverse Transformer, err error) {
+	this.defaultOrigin()
 	if math.IsNaN(this.Lat2) {
 		this.Lat2 = this.Lat1
 	}
